@@ -39,4 +39,38 @@ BENIGN = [
          edits=[(UTIL, """    buf[0] = ((n & 0xff00000000000000) >> 56) as u8;""", """    buf[0] = (n >> 56) as u8;""")]),
     dict(name='b-seq-size-literal', props=['C04'],
          edits=[(AEAD, "let seq_size = core::mem::size_of::<Seq>();", "let seq_size = 8usize;")]),
+    dict(name='b-open-question-mark-form', props=['C05', 'C04'],
+         edits=[(AEAD, """            let decrypt_res = self
+                .0
+                .encryptor
+                .decrypt_in_place_detached(&nonce.0, aad, ciphertext, &tag.0);
+
+            if decrypt_res.is_err() {
+                // Opening failed due to a bad tag
+                return Err(HpkeError::OpenError);
+            }
+""", """            self.0
+                .encryptor
+                .decrypt_in_place_detached(&nonce.0, aad, ciphertext, &tag.0)
+                .map_err(|_| HpkeError::OpenError)?;
+""")]),
+    dict(name='b-open-match-form', props=['C05'],
+         edits=[(AEAD, """            if decrypt_res.is_err() {
+                // Opening failed due to a bad tag
+                return Err(HpkeError::OpenError);
+            }
+""", """            match decrypt_res {
+                Ok(()) => {}
+                Err(_) => return Err(HpkeError::OpenError),
+            }
+""")]),
+    dict(name='b-open-is-ok-form', props=['C05'],
+         edits=[(AEAD, """            if decrypt_res.is_err() {
+                // Opening failed due to a bad tag
+                return Err(HpkeError::OpenError);
+            }
+""", """            if !decrypt_res.is_ok() {
+                return Err(HpkeError::OpenError);
+            }
+""")]),
 ]
